@@ -453,10 +453,12 @@ int main(int argc, char** argv)
         {
             if (b.empty())
                 continue;
-            for (size_t target : { 15u, 16u, 17u, 31u, 32u, 33u, 63u, 64u, 65u, 255u, 256u, 257u, 1000u })
+            for (size_t target : { 15u, 16u, 17u, 31u, 32u, 33u, 63u, 64u, 65u, 255u, 256u, 257u, 1000u, 1023u, 1024u, 1025u, 5000u })
             {
                 if (a.asan() && target > 65)
                     continue;
+                if (target > 1000 && b.size() > 2)
+                    continue; // more than a thousand occurrences of a one- or two-character pattern
                 std::string x;
                 while (x.size() < target)
                     x += b;
